@@ -419,7 +419,9 @@ class WorkerPool:
         with self._lock:
             self._active -= 1
 
-            if self._closed:
+            if self._closed or self._max_idle == 0:
+                # max_idle == 0 means "never cache": there is no idle worker to
+                # evict in its place, so pooling this one would exceed the cap.
                 self._discards += 1
                 transport.close()
                 return
